@@ -132,6 +132,8 @@ structure Settings where
   disableHelpSubcommand : Bool := false
   noBinaryName : Bool := false
   hasVersion : Bool := false
+  /-- `AppSettings::Built`: set by `_build_self`, which is a no-op once it is set -/
+  built : Bool := false
 deriving Repr, DecidableEq
 
 inductive Cmd
